@@ -46,6 +46,19 @@ def render(e):
     raise Broken("unknown import set %r" % (e,))
 
 
+def init_value(k, name, vk, code, ver):
+    """Scheme expression for the value variable <name> of library k holds at version <ver> (Import!Val)."""
+    if vk == "list":
+        return '(list %d "%s" %s)' % (k, name, ver)
+    if vk == "fix":
+        return "(+ %d %s)" % (code * 100000, ver)
+    if vk == "char":
+        return "(integer->char (+ %d (modulo %s 4096)))" % (65536 + code * 4096, ver)
+    if vk == "bool":
+        return "(odd? %s)" % ver
+    raise Broken("unknown value kind %r" % vk)
+
+
 def render_lib(k, lib):
     out = ["(define-library %s" % libname(k), "  (import (scheme base)%s)" % "".join(" " + render(e) for e in lib["imports"])]
     ex = []
@@ -54,20 +67,38 @@ def render_lib(k, lib):
     out.append("  (export %s)" % " ".join(ex))
     out.append("  (begin")
     out.append('    (write-string "{\\"e\\":\\"Body\\",\\"lib\\":%d}\\n")' % k)
-    helper, counter = "h%d" % k, "k%d" % k
+    helper, counter, version = "h%d" % k, "k%d" % k, "v%d" % k
     out.append("    (define (%s s) (list %d s))" % (helper, k))
     out.append("    (define %s 0)" % counter)
-    for name, kind in lib["defs"]:
+    out.append("    (define %s 0)" % version)
+    late = []
+    variables = [(name, arg, code) for name, kind, arg, code in lib["defs"] if kind == "var"]
+    for name, kind, arg, code in lib["defs"]:
         if kind == "priv":
             continue
         if kind == "var":
-            out.append('    (define %s (%s "%s"))' % (name, helper, name))
+            if lib.get("late") and name in lib["late"]:       # defined first, assigned by the body itself afterwards
+                out.append("    (define %s 0)" % name)
+                late.append("    (set! %s %s)" % (name, init_value(k, name, arg, code, "0")))
+            else:
+                out.append("    (define %s %s)" % (name, init_value(k, name, arg, code, "0")))
         elif kind == "proc":
             out.append('    (define (%s) (%s "%s"))' % (name, helper, name))
         elif kind == "mac":
             out.append('    (define-syntax %s (syntax-rules () ((_) (%s "%s"))))' % (name, helper, name))
         elif kind == "tick":
             out.append('    (define (%s) (set! %s (+ %s 1)) (list %d "%s" %s))' % (name, counter, counter, k, name, counter))
+        elif kind == "bump":       # the library assigns all its variables
+            out.append("    (define (%s) (set! %s (+ %s 1))%s (list %d \"%s\" %s))"
+                       % (name, version, version, "".join(" (set! %s %s)" % (v, init_value(k, v, vk, c, version)) for v, vk, c in variables),
+                          k, name, version))
+        elif kind == "rd":         # this library reads a variable in its scope (its own or an imported one) directly
+            out.append("    (define (%s) %s)" % (name, arg))
+        elif kind == "relay":      # this library makes another library assign its variables
+            out.append('    (define (%s) (list %d "%s" (car (cddr (%s)))))' % (name, k, name, arg))
+        else:
+            raise Broken("unknown kind %r" % kind)
+    out += late
     out.append("  ))")
     return "\n".join(out) + "\n"
 
@@ -146,7 +177,7 @@ def tlc_gen(sc, graphfile, tag, exhaustive_depth=None, sims=0, seed=1, maxids=2,
     cfg = sc.file("gen_%s.cfg" % tag)
     with open(cfg, "w") as f:
         f.write("SPECIFICATION %s\nCONSTANTS\n  Graph <- GenGraph\n  MaxDepth = %d\n  MaxIds = %d\n  Pfx = {%s}\n  Pool = {%s}\n"
-                "  MaxTicks = 0\n  StartLibs <- Libs\nINVARIANTS GenOK Emit\nCHECK_DEADLOCK FALSE\n"
+                "  MaxTicks = 0\n  CopyImmediates = FALSE\n  MaxEnvs = 0\n  StartLibs <- Libs\nINVARIANTS GenOK Emit\nCHECK_DEADLOCK FALSE\n"
                 % ("BuildSpec" if exhaustive_depth is not None else "GenSpec",
                    exhaustive_depth if exhaustive_depth is not None else 4, maxids,
                    ", ".join('"%s"' % p for p in PFX), ", ".join('"%s"' % p for p in (pool or RENAME_POOL))))
@@ -205,21 +236,57 @@ def agree(maps):
 # ---------------------------------------------------------------------------------------------------------
 # library graphs: python draws the random choices, every import set in them is one TLC generated
 # ---------------------------------------------------------------------------------------------------------
-def pick_defs(rng, k, taken):
-    pool = [n for n in NAMEPOOL if n not in taken and n not in ("h%d" % k, "k%d" % k)]
-    names = rng.sample(pool, rng.randint(3, 6))
+def binding_kind(graph, b):
+    for d in graph["libs"][b[0] - 1]["defs"]:
+        if d[0] == b[1]:
+            return d[1]
+    raise Broken("no definition %r" % (b,))
+
+
+def pick_defs(rng, k, taken, imported=None, graph=None):
+    """defs entries: [name, kind, arg, code]; imported: name -> binding (from TLC) for readers / relays of this library."""
+    own = ("h%d" % k, "k%d" % k, "v%d" % k)
+    pool = [n for n in NAMEPOOL if n not in taken and n not in own]
+    names = rng.sample(pool, min(len(pool), rng.randint(5, 7)))
     kinds = []
-    for prob, kind in ((0.85, "tick"), (0.75, "mac"), (0.6, "proc")):
+    for prob, kind in ((0.9, "bump"), (0.85, "tick"), (0.75, "mac"), (0.6, "proc")):
         if rng.random() < prob:
             kinds.append(kind)
-    kinds = (kinds + ["var"] * len(names))[:len(names)]
-    rng.shuffle(kinds)
-    return [["h%d" % k, "priv"], ["k%d" % k, "priv"]] + [[n, kd] for n, kd in zip(names, kinds)]
+    imported = imported or {}
+    ivars = sorted(n for n, b in imported.items() if binding_kind(graph, b) == "var")
+    ibumps = sorted(n for n, b in imported.items() if binding_kind(graph, b) == "bump")
+    extra = []
+    for n in rng.sample(ivars, min(len(ivars), 2)):
+        extra.append(("rd", n))
+    if ibumps and rng.random() < 0.8:
+        extra.append(("relay", rng.choice(ibumps)))
+    kinds = kinds[:max(0, len(names) - len(extra) - 2)]
+    nvar = len(names) - len(kinds) - len(extra)
+    vks = ["fix", "list", "char", "bool"]
+    rng.shuffle(vks)
+    plan = kinds + extra + [("var", vks[i % 4]) for i in range(nvar)]
+    rng.shuffle(plan)
+    defs = [[n, "priv", "", 0] for n in own]
+    idx = 0
+    for name, item in zip(names, plan):
+        if isinstance(item, tuple) and item[0] == "var":
+            idx += 1
+            defs.append([name, "var", item[1], k * 30 + idx])
+        elif isinstance(item, tuple):
+            defs.append([name, item[0], item[1], 0])
+        else:
+            defs.append([name, item, "", 0])
+    # some libraries read one of their own variables through a procedure as well
+    ownvars = [d[0] for d in defs if d[1] == "var"]
+    free = [n for n in pool if n not in names]
+    if ownvars and free and rng.random() < 0.5:
+        defs.append([rng.choice(free), "rd", rng.choice(ownvars), 0])
+    return defs
 
 
 def pick_exports(rng, defs, imported):
-    own = [n for n, kd in defs if kd != "priv"]
-    chosen = [n for n in own if rng.random() < 0.75]
+    own = [d[0] for d in defs if d[1] != "priv"]
+    chosen = [d[0] for d in defs if d[1] != "priv" and (rng.random() < 0.75 or d[1] in ("bump", "rd", "relay"))]
     if len(chosen) < 2:
         chosen = own[:2]
     chosen += [n for n in sorted(imported) if rng.random() < 0.5]
@@ -243,6 +310,10 @@ def pick_exports(rng, defs, imported):
     return exports
 
 
+def late_vars(rng, defs):
+    return [d[0] for d in defs if d[1] == "var" and rng.random() < 0.3]
+
+
 def make_graph(chk, sc, gid, rng, nlibs):
     gdir = sc.sub("g%d" % gid)
     graph = {"libs": [], "base": BASE}
@@ -255,13 +326,13 @@ def make_graph(chk, sc, gid, rng, nlibs):
 
     for k in range(1, layers[0] + 1):
         defs = pick_defs(rng, k, set())
-        graph["libs"].append({"imports": [], "defs": defs, "exports": pick_exports(rng, defs, {})})
+        graph["libs"].append({"imports": [], "defs": defs, "exports": pick_exports(rng, defs, {}), "late": late_vars(rng, defs)})
     save()
     for li in range(1, len(layers)):
         cands, _ = tlc_gen(sc, gfile, "g%d_layer%d" % (gid, li), sims=40, seed=chk.seed * 100 + gid * 10 + li)
         cands = stratify([c for c in cands if c["names"]], rng, 60)
         for k in range(layers[li - 1] + 1, layers[li] + 1):
-            own = {"h%d" % k, "k%d" % k}         # the library's private helper / state must not clash with an import
+            own = {"h%d" % k, "k%d" % k, "v%d" % k}         # the library's private helper / state must not clash with an import
             usable = [c for c in cands if not own & set(names_of(c))]
             if not usable:
                 raise Broken("no usable import set for library %d of graph %d" % (k, gid))
@@ -278,8 +349,9 @@ def make_graph(chk, sc, gid, rng, nlibs):
             imported = {}
             for c in picks:
                 imported.update(names_of(c))
-            defs = pick_defs(rng, k, set(imported))
-            graph["libs"].append({"imports": [c["e"] for c in picks], "defs": defs, "exports": pick_exports(rng, defs, imported)})
+            defs = pick_defs(rng, k, set(imported), imported, graph)
+            graph["libs"].append({"imports": [c["e"] for c in picks], "defs": defs, "exports": pick_exports(rng, defs, imported),
+                                  "late": late_vars(rng, defs)})
         save()
     moddir = os.path.join(gdir, "mod")
     write_libs(graph, moddir)
@@ -291,8 +363,8 @@ def make_cases(chk, sc, g, rng, sims, nsim, npairs, nprog, deep=False):
     if deep:      # every import set with <= 2 modifiers (smaller menus)
         allc, r1 = tlc_gen(sc, g["gfile"], "g%d_all" % gid, exhaustive_depth=2, maxids=1, timeout=1200, pool=["z"])
     else:         # every import set with <= 1 modifier
-        allc, r1 = tlc_gen(sc, g["gfile"], "g%d_all" % gid, exhaustive_depth=1, maxids=2, timeout=900,
-                           pool=(RENAME_POOL if chk.thorough else ["a", "z"]))
+        allc, r1 = tlc_gen(sc, g["gfile"], "g%d_all" % gid, exhaustive_depth=1, maxids=(2 if chk.thorough else 1), timeout=900,
+                           pool=(["a", "z"] if chk.thorough else ["z"]))
     simc, r2 = tlc_gen(sc, g["gfile"], "g%d_sim" % gid, sims=sims, seed=chk.seed * 1000 + gid)
     seen, singles = set(), []
     for c in allc:
@@ -309,7 +381,7 @@ def make_cases(chk, sc, g, rng, sims, nsim, npairs, nprog, deep=False):
     cases = [{"sets": [c["e"]], "path": "env"} for c in singles]
     universe = set(BASE)
     for lib in g["graph"]["libs"]:
-        universe.update(n for n, _ in lib["defs"])
+        universe.update(d[0] for d in lib["defs"])
         universe.update(x for x, _ in lib["exports"])
     for c in singles:
         universe.update(n for n, _ in c["names"])
@@ -425,6 +497,14 @@ def case_key(g, case, reason, detail):
         return "import-error:" + "+".join(used)
     if reason == "instances":
         return "instances"
+    if reason == "aliasing":
+        # an importer read a value the exporter's variable held earlier: which class of value, which kind of importer
+        m = re.search(r'holds \|-> "(\w+)"', detail)
+        via = re.search(r'via \|-> "(\w+)"', detail)
+        rex = re.search(r"reexported \|-> (TRUE|FALSE)", detail)
+        cls = "immediate" if m and m.group(1) in ("fix", "char", "bool") else "heap"
+        who = "library-importer" if via and via.group(1) == "library" else ("program-importer" if case["path"] == "prog" else "env-importer")
+        return "aliasing:%s:%s%s" % (cls, who, ":reexport" if rex and rex.group(1) == "TRUE" and who != "library-importer" else "")
     return reason + ":" + "+".join(used)
 
 
@@ -439,10 +519,12 @@ def run():
         timing["build"] = round(time.time() - t0, 1)
         # ---------------- MC (the specification checks itself) in parallel with case generation
         mcs = [("ImportMC3.cfg", "3-name library with a renamed export, all import sets to nesting depth 3"),
-               ("ImportMC.cfg", "three libraries incl. re-exports, all import sets to nesting depth 2"),
-               ("ImportRunMC.cfg", "instantiate once / shared state")]
+               ("ImportMC.cfg", "re-exporting library, all import sets to nesting depth 2"),
+               ("ImportRunMC.cfg", "instantiate once / shared state / every alias reads the exporter's location (SameLocation)"),
+               ("ImportRunMCneg.cfg", "negative test: copying immediate values into immutable importers must violate SameLocation")]
         if chk.thorough:
-            mcs.append(("ImportMC3all.cfg", "three libraries, all import sets to nesting depth 3"))
+            mcs.append(("ImportMCdia.cfg", "the diamond library (8 exports), all import sets to nesting depth 2"))
+            mcs.append(("ImportMC3all.cfg", "libraries 1 and 2, all import sets to nesting depth 3"))
 
         def mc(item):
             return item, vlib.run_tlc("ImportMC.tla", item[0], sc.path, workers=4, timeout=1700, heap="4g", coverage=(item[0] == "ImportRunMC.cfg"))
@@ -492,6 +574,11 @@ def run():
         chk.cov["timing"] = timing
         for (cfg, what), r in mcres:
             vlib.require_tlc_ok(r, cfg)
+            if cfg == "ImportRunMCneg.cfg":
+                if r.violated != "SameLocation":
+                    raise Broken("%s: SameLocation does not notice copied immediates (%s)" % (cfg, r.summary()))
+                chk.cov["negative_model_violates_SameLocation"] = True
+                continue
             if r.violated:
                 raise Broken("%s: the specification violates its own law %s\n%s" % (cfg, r.violated, r.out[-2000:]))
             if r.distinct < 50:
@@ -503,6 +590,7 @@ def run():
         stats = {"ok": 0, "rejected": 0, "skipped": 0}
         rejected = {}          # key -> rejected cases; one report per key, with the smallest case as the replay
         kinds_seen, mods_ok, depth_ok, nvisible, distinct, okprog = set(), {}, {}, 0, set(), 0
+        holds_seen, mutated_reads, reprobes, assigned = set(), {}, 0, {}
         # rule out tool flakiness: a shard with rejections must be rejected the same way once more
         again = vlib.parallel(lambda gv: validate(sc, gv[0], gv[1]["runs"], gv[1]["label"] + "_again")
                               if (rejected_at(gv[1]["tlc"]) or any(x[1] == "rejected" for x in gv[1]["verdicts"])) else None, vals, jobs=6)
@@ -515,14 +603,14 @@ def run():
             if ra and ra[2] == "FALSE":
                 raise Broken("generated graph %d is not well-formed according to Import.tla (GraphWF)" % g["gid"])
             expected = [i for run in v["runs"] for i in run["ids"]]
-            got = {}
+            got, allv = {}, {}              # several verdicts per case (first probe, later re-probes): the first rejection counts
             for i, verdict, reason, detail in v["verdicts"]:
-                if i in got:
-                    raise Broken("two verdicts for case %d of graph %d" % (i, g["gid"]))
-                got[i] = (verdict, reason, detail)
+                allv.setdefault(i, []).append((verdict, reason, detail))
+                if i not in got or (got[i][0] != "rejected" and verdict == "rejected"):
+                    got[i] = (verdict, reason, detail)
             rej = sorted(i for i in got if got[i][0] == "rejected")
             if rej or ra:
-                if v2 is None or sorted(x[0] for x in v2["verdicts"] if x[1] == "rejected") != rej or rejected_at(v2["tlc"]) != ra:
+                if v2 is None or sorted({x[0] for x in v2["verdicts"] if x[1] == "rejected"}) != rej or rejected_at(v2["tlc"]) != ra:
                     raise Broken("TLC verdicts on graph %d shard %s are not reproducible" % (g["gid"], v["label"]))
             recorded = {}
             for run in v["runs"]:
@@ -530,6 +618,12 @@ def run():
                     if '"e":"Imported"' in x and '"err":1' in x:
                         ev = json.loads(x)
                         recorded[ev["id"]] = ev.get("msg", "")
+                    elif '"e":"Assigned"' in x:          # R7RS leaves it open: what chibi does is recorded, not judged
+                        ev = json.loads(x)
+                        path = g["cases"][ev["id"] - 1]["path"]
+                        for _, outcome in ev["obs"]:
+                            k2 = "%s:%s" % ("program" if path == "prog" else "environment", outcome)
+                            assigned[k2] = assigned.get(k2, 0) + 1
             for i in rej:
                 case = g["cases"][i - 1]
                 _, reason, detail = got[i]
@@ -560,10 +654,16 @@ def run():
                     continue
                 stats["ok"] += 1
                 okprog += case["path"] == "prog"
-                m = re.search(r"(\d+), \{(.*?)\}", detail)
-                if m:
-                    nvisible += int(m.group(1))
-                    kinds_seen.update(x.strip().strip('"') for x in m.group(2).split(",") if x.strip())
+                for _, reason2, detail2 in allv[i]:
+                    m = re.search(r"(\d+),\s*\{(.*?)\},\s*\{(.*?)\},\s*(\d+)", detail2)
+                    if m:
+                        if reason2 == "first":
+                            nvisible += int(m.group(1))
+                        else:
+                            reprobes += 1
+                        kinds_seen.update(x.strip().strip('"') for x in m.group(2).split(",") if x.strip())
+                        holds_seen.update(x.strip().strip('"') for x in m.group(3).split(",") if x.strip())
+                        mutated_reads[case["path"]] = mutated_reads.get(case["path"], 0) + int(m.group(4))
                 for e in case["sets"]:
                     for md in mods(e):
                         mods_ok[md] = mods_ok.get(md, 0) + 1
@@ -609,6 +709,10 @@ def run():
         chk.cov["modifiers_in_accepted_cases"] = mods_ok
         chk.cov["nesting_depth_of_accepted_sets"] = {str(k): depth_ok[k] for k in sorted(depth_ok)}
         chk.cov["binding_kinds_observed"] = sorted(kinds_seen)
+        chk.cov["variable_values_observed"] = sorted(holds_seen)
+        chk.cov["reads_of_variables_after_their_library_assigned_them"] = mutated_reads
+        chk.cov["earlier_importers_used_again"] = reprobes
+        chk.cov["importer_assigning_imported_variable (not judged, R7RS: an error)"] = assigned
         chk.sample({"library": render_lib(len(graphs[0]["graph"]["libs"]), graphs[0]["graph"]["libs"][-1])})
         if chk.violations:
             return chk.finish()          # rejections stand; coverage thresholds are judged on runs without a new violation
@@ -618,8 +722,12 @@ def run():
             raise Broken("vacuous: %d of %d cases were not well-formed" % (stats["skipped"], total))
         need = {"only", "except", "rename", "prefix", "drop"}
         # (a known finding takes whole libraries out, so the spread of the remaining cases is not required then)
-        if not chk.known_hits and (need - set(mods_ok) or not depth_ok.get(4) or not {"var", "proc", "mac", "tick"} <= kinds_seen or not okprog):
-            raise Broken("vacuous: accepted cases cover modifiers %s, depths %s, kinds %s, programs %d" % (mods_ok, depth_ok, sorted(kinds_seen), okprog))
+        if not chk.known_hits and (need - set(mods_ok) or not depth_ok.get(4) or not okprog
+                                   or not {"var", "proc", "mac", "tick", "bump", "rd", "relay"} <= kinds_seen
+                                   or not {"list", "fix", "char", "bool"} <= holds_seen
+                                   or mutated_reads.get("env", 0) < 200 or not mutated_reads.get("prog") or reprobes < 100):
+            raise Broken("vacuous: accepted cases cover modifiers %s, depths %s, kinds %s, values %s, reads after assignment %s, re-probes %d, programs %d"
+                         % (mods_ok, depth_ok, sorted(kinds_seen), sorted(holds_seen), mutated_reads, reprobes, okprog))
         if not chk.cov["corrupted_record_rejected"]:
             raise Broken("binding not demonstrated: no shard suitable for the corruption test")
         chk.assumptions += ["identifiers are the strings the check renders; a referenced name is observed by evaluating `n' and `(n)' in the importing environment "
@@ -631,14 +739,16 @@ def run():
 
 
 def corrupt_demo(sc, vals):
-    """Soundness rule 5: make one invisible name of an accepted case visible in the record; TLC must reject exactly that case."""
+    """Soundness rule 5, on an accepted shard: (1) make one invisible name of a case visible in the record, (2) replace one
+    recorded value of a mutated immediate variable by the value it held when its library was loaded (a stale copy);
+    TLC must reject exactly those cases, the second one as `aliasing'."""
     for g, v in vals:
-        oks = [x[0] for x in v["verdicts"] if x[1] == "ok"]
+        oks = sorted({x[0] for x in v["verdicts"] if x[1] == "ok"} - {x[0] for x in v["verdicts"] if x[1] != "ok"})
         if not oks or rejected_at(v["tlc"]):
             continue
-        before = sorted(x[0] for x in v["verdicts"] if x[1] == "rejected")
+        before = {x[0] for x in v["verdicts"] if x[1] == "rejected"}
         target = oks[len(oks) // 2]
-        runs2, done = [], False
+        runs2, done, stale = [], False, None
         for run in v["runs"]:
             lines = []
             for x in run["lines"]:
@@ -650,14 +760,25 @@ def corrupt_demo(sc, vals):
                             done = True
                             break
                     x = json.dumps(ev, separators=(",", ":"))
+                elif stale is None and ('"e":"Reprobed"' in x or '"e":"Probed"' in x) and '"fix"' in x and ('"id":%d,' % target) not in x:
+                    ev = json.loads(x)
+                    if ev["id"] in oks:
+                        for ob in ev["obs"]:
+                            if len(ob[1]) == 4 and ob[1][0] == "fix" and ob[1][1] % 100000 > 0:
+                                ob[1][1] -= ob[1][1] % 100000
+                                stale = ev["id"]
+                                break
+                        x = json.dumps(ev, separators=(",", ":"))
                 lines.append(x)
             runs2.append(dict(run, lines=lines))
-        if not done:
+        if not done or stale is None:
             continue
         v2 = validate(sc, g, runs2, v["label"] + "_corrupt")
-        rej = sorted(x[0] for x in v2["verdicts"] if x[1] == "rejected")
-        if rej != sorted(before + [target]):
-            raise Broken("binding not demonstrated: corrupted observation of case %d gave rejections %s" % (target, rej))
+        rej = {x[0] for x in v2["verdicts"] if x[1] == "rejected"}
+        if rej != before | {target, stale}:
+            raise Broken("binding not demonstrated: corrupted observations of cases %d, %d gave rejections %s" % (target, stale, sorted(rej)))
+        if not any(x[0] == stale and x[2] == "aliasing" for x in v2["verdicts"]):
+            raise Broken("binding not demonstrated: the stale value of case %d was not rejected as aliasing" % stale)
         return True
     return False
 
